@@ -164,6 +164,7 @@ class SimWorld(object):
         self.checks_skipped = 0
         self.check_errors = []
         self.in_probe = False
+        self.on_reply = []
         self.mode = mode
         self.exited = False
         self.exit_restarting = None
@@ -272,6 +273,8 @@ class SimWorld(object):
         for r in self.requests:
             if r.cid == cid:
                 r.replies.append((t, payload))
+                for hook in self.on_reply:
+                    hook(r)
                 break
 
     def _event(self, frames):
@@ -611,10 +614,17 @@ _MISSING = object()
 
 
 def _innermost_circus_frame(stack):
+    """Innermost circus frames of the blocking call, e.g.
+    'reap_process<reap_processes<_start' (names the trigger path)."""
+    names = []
     for fr in reversed(stack):
-        if '/circus/' in fr.filename:
-            return "%s:%s" % (fr.filename.split('/circus/')[-1], fr.name)
-    return None
+        if '/circus/' in fr.filename and fr.name not in (
+                '_log', 'wrapper', '<lambda>'):
+            if not names or names[-1] != fr.name:
+                names.append(fr.name)
+        if len(names) >= 4:
+            break
+    return '<'.join(names) if names else None
 
 
 def quiet_logging():
